@@ -116,7 +116,10 @@ def minimise(prop, template, base_dir, ops, seed_tag, target_cls, budget_s):
         run_dir = os.path.join(base_dir, f"min{counter[0]}")
         try:
             _, v = execute(prop, template, run_dir, candidate, seed_tag)
-        except HarnessError:
+        except Exception:  # noqa: BLE001
+            # a candidate the simulator cannot even execute (dangling index
+            # after pruning, substrate that no longer builds) is not a
+            # smaller failing case
             return False
         return v is not None and v.cls == target_cls
 
